@@ -485,12 +485,13 @@ def local_names(fnode):
     return out - params
 
 
-def alpha_text(text_or_node, fnode):
+def alpha_text(text_or_node, fnode, names=None):
     """Text in which every local variable of fnode is replaced by '$'.  For an
     AST node the replacement is done on Name nodes (exact); for a string it is
     a word-boundary regex (not attribute names, not keyword-argument names)."""
     import copy
-    names = local_names(fnode)
+    if names is None:
+        names = local_names(fnode)
     if not isinstance(text_or_node, str):
         if not names:
             return norm_text(text_or_node)
